@@ -17,6 +17,8 @@ Fixpoint unle (b : bytes) : N :=
   | x :: t => x + 256 * unle t
   end.
 
+(* big-endian decoding: the same bytes read from the other end *)
+Definition unbe (b : bytes) : N := unle (rev b).
 Lemma le_length w v : length (le w v) = w.
 Proof. revert v; induction w as [|w IH]; intro v; cbn [le length]; [reflexivity|now rewrite IH]. Qed.
 
